@@ -606,6 +606,94 @@ static void op_sacmp(const jval *c)
 	free(sa);
 }
 
+
+/* ---- C40: textual addresses ---------------------------------------------- */
+static void op_pton(const jval *c)
+{
+	int af = j_int(c, "af", 4) == 4 ? AF_INET : AF_INET6;
+	size_t alen = af == AF_INET ? 4 : 16;
+	char *t = get_cstr(c, "t");
+	unsigned char *a = malloc(alen);	/* exact-size destination */
+	unsigned char pa[16];
+	int r, pr;
+	memset(a, 0xAA, alen);
+	r = evutil_inet_pton(af, t, a);
+	fprintf(out, "{\"le\":{\"rc\":%d,\"a\":", r);
+	if (r == 1) put_bytes(a, alen); else fputs("[]", out);
+	pr = inet_pton(af, t, pa);
+	fprintf(out, "},\"pl\":{\"rc\":%d,\"a\":", pr);
+	if (pr == 1) put_bytes(pa, alen); else fputs("[]", out);
+	fputs("}}", out);
+	free(a); free(t);
+}
+static void op_ntop(const jval *c)
+{
+	int af = j_int(c, "af", 4) == 4 ? AF_INET : AF_INET6;
+	size_t alen, maxlen = af == AF_INET ? 17 : 47, n;
+	unsigned char *a = get_bytes(c, "a", &alen);
+	char full[64], pl[64];
+	const char *r = evutil_inet_ntop(af, a, full, sizeof(full));
+	unsigned char back[16];
+	int ports[3] = { 1, 80, 65535 }, k, rt = 1;
+	fputs("{\"full\":", out); put_cstr(r);
+	fputs(",\"pl\":", out); put_cstr(inet_ntop(af, a, pl, sizeof(pl)));
+	fputs(",\"back\":", out);
+	if (r && inet_pton(af, r, back) == 1) put_bytes(back, alen); else fputs("null", out);
+	fputs(",\"lens\":[", out);
+	for (n = 0; n <= maxlen; n++) {
+		char *buf = malloc(n ? n : 1);
+		const char *q;
+		memset(buf, 0xAA, n ? n : 1);
+		q = evutil_inet_ntop(af, a, buf, n);
+		if (n) fputc(',', out);
+		if (!q) fputs("null", out);
+		else if (q != buf || !memchr(buf, 0, n)) fputs("[-2]", out);
+		else put_cstr(buf);
+		free(buf);
+	}
+	fputs("],\"sprt\":", out);
+	/* format with a non-zero port, parse back: same family, address and port */
+	for (k = 0; k < 3; k++) {
+		struct sockaddr_storage ss, ss2;
+		char txt[128];
+		int l2 = sizeof(ss2);
+		memset(&ss, 0, sizeof(ss)); memset(&ss2, 0, sizeof(ss2));
+		if (af == AF_INET) {
+			struct sockaddr_in *sin = (struct sockaddr_in *)&ss;
+			sin->sin_family = AF_INET; memcpy(&sin->sin_addr, a, 4); sin->sin_port = htons(ports[k]);
+		} else {
+			struct sockaddr_in6 *sin6 = (struct sockaddr_in6 *)&ss;
+			sin6->sin6_family = AF_INET6; memcpy(&sin6->sin6_addr, a, 16); sin6->sin6_port = htons(ports[k]);
+		}
+		evutil_format_sockaddr_port_((struct sockaddr *)&ss, txt, sizeof(txt));
+		if (evutil_parse_sockaddr_port(txt, (struct sockaddr *)&ss2, &l2) != 0 ||
+		    evutil_sockaddr_cmp((struct sockaddr *)&ss, (struct sockaddr *)&ss2, 1) != 0 ||
+		    ss2.ss_family != af)
+			rt = 0;
+	}
+	fprintf(out, "%d}", rt);
+	free(a);
+}
+static void op_sp(const jval *c)
+{
+	char *t = get_cstr(c, "t");
+	struct sockaddr_storage ss;
+	int len = sizeof(ss), r;
+	memset(&ss, 0, sizeof(ss));
+	r = evutil_parse_sockaddr_port(t, (struct sockaddr *)&ss, &len);
+	if (r != 0) fputs("{\"st\":\"reject\"}", out);
+	else if (ss.ss_family == AF_INET) {
+		struct sockaddr_in *sin = (struct sockaddr_in *)&ss;
+		fputs("{\"st\":\"ok\",\"f\":4,\"a\":", out); put_bytes(&sin->sin_addr, 4);
+		fprintf(out, ",\"port\":%d,\"len\":%d}", ntohs(sin->sin_port), len == (int)sizeof(*sin));
+	} else {
+		struct sockaddr_in6 *sin6 = (struct sockaddr_in6 *)&ss;
+		fputs("{\"st\":\"ok\",\"f\":6,\"a\":", out); put_bytes(&sin6->sin6_addr, 16);
+		fprintf(out, ",\"port\":%d,\"len\":%d}", ntohs(sin6->sin6_port), len == (int)sizeof(*sin6));
+	}
+	free(t);
+}
+
 /* ---- dispatch ---------------------------------------------------------- */
 static void run_case(const jval *c)
 {
@@ -616,6 +704,9 @@ static void run_case(const jval *c)
 	else if (!strcmp(op, "uriset")) op_uriset(c);
 	else if (!strcmp(op, "tagrt")) op_tagrt(c);
 	else if (!strcmp(op, "ctab")) op_ctab(c);
+	else if (!strcmp(op, "pton")) op_pton(c);
+	else if (!strcmp(op, "ntop")) op_ntop(c);
+	else if (!strcmp(op, "sp")) op_sp(c);
 	else if (!strcmp(op, "str")) op_str(c);
 	else if (!strcmp(op, "sacmp")) op_sacmp(c);
 	else if (!strcmp(op, "tagdec")) op_tagdec(c);
